@@ -545,28 +545,28 @@ theorem dotted_spec : ∀ (p : List Name), (∀ m ∈ p, TextSeg m) →
     rw [h3]
 
 /-- a key written with single dots resolves to its segments -/
-theorem chain_joinDots (p : List Name) (hp : p ≠ []) (h : ∀ m ∈ p, TextSeg m) :
-    chain true (joinDots p) = ⟨p, none⟩ := by
+theorem chain_joinDots (fixed : Bool) (p : List Name) (hp : p ≠ []) (h : ∀ m ∈ p, TextSeg m) :
+    chain fixed (joinDots p) = ⟨p, none⟩ := by
   obtain ⟨h1, h2, h3⟩ := dotted_spec p h
   have hne : dotted p ≠ [] := by
     cases p with
     | nil => exact absurd rfl hp
     | cons a r => cases r <;> simp [dotted]
-  have := chainF_reduced (dotted p) ((joinDots p).length + 1) h1 h2 hne
+  have := chainF_reduced fixed (dotted p) ((joinDots p).length + 1) h1 h2 hne
     (by have := renderComps_length_ge (dotted p) h1; simp only [joinDots]; omega)
   simp only [joinDots] at this
   rw [chain, joinDots, this, h3]
 
 /-- **every listed key looks up to the listed value, and is a member** -/
-theorem items_lookup (cfg : Cfg) (hfix : cfg.fixResolve = true) (kvs : Kvs) (hw : wfK isIdent kvs = true)
+theorem items_lookup (cfg : Cfg) (kvs : Kvs) (hw : wfK isIdent kvs = true)
     (hs : shortK kvs = true) (k : Name) (v : Tree) (h : (k, v) ∈ items (.node kvs)) :
     getT cfg (.node kvs) k = .ok v ∧ containsT cfg (.node kvs) k = .ok true := by
   simp only [items, itemsK_eq, List.mem_map, Prod.mk.injEq, Prod.exists] at h
   obtain ⟨p, v', hm, rfl, rfl⟩ := h
   obtain ⟨hg, ht⟩ := itemsP_get p kvs v' hw hs hm
-  have hc := chain_joinDots p (itemsP_ne kvs p v' hm) ht
+  have hc := chain_joinDots cfg.fixResolve p (itemsP_ne kvs p v' hm) ht
   have : getT cfg (.node kvs) (joinDots p) = .ok v' := by
-    simp only [getT, hfix, hc, rootKvs, hg]
+    simp only [getT, hc, rootKvs, hg]
   exact ⟨this, by simp [containsT, this]⟩
 
 /-- the leaf paths of a level: through non-empty levels by name, through non-empty lists of levels
